@@ -37,6 +37,7 @@ class Contract:
             if n.startswith("loop") and n[4:5].isdigit() and callable(_unwrap(f)):
                 k, _, what = n[4:].partition("_")
                 self.loops.setdefault(int(k), {})[what] = _unwrap(f)
+        self.globals_in = d.get("globals_in", {})     # module globals read/written: {"module.name": kind}
         self.bv_body = d.get("bv_body", ())
         self.bv_replay = _unwrap(d.get("bv_replay", None))
         self.assumed = d.get("assumed", False)   # True: trusted contract (environment), never verified
@@ -63,3 +64,11 @@ def contract(key):
         REGISTRY[key] = Contract(key, cls)
         return cls
     return deco
+
+
+def fresh_instance(cls):
+    """argument factory for `self` of a constructor under contract: an uninitialised instance"""
+    def make(ex):
+        return ex.new_object(cls.__new__(cls))
+    make.instance_of = cls
+    return make
